@@ -8,6 +8,18 @@ import pyccolo.emit_event as ee
 from swread import read_switches, reset_switches
 
 CUR, LOG, DEPTH, VIA = [], [], [0], ["assign"]
+MOD = "verif_c16_mod"
+SYS_EVT = {"call": pyc.call, "return": pyc.return_, "import": pyc.after_import}
+
+
+def _module_dir():
+    import os
+    import tempfile
+    d = tempfile.mkdtemp(prefix="verif_c16_")
+    with open(os.path.join(d, MOD + ".py"), "w") as f:
+        f.write("pass\n")
+    sys.path.insert(0, d)
+    return d
 
 
 def run_acts(acts):
@@ -16,10 +28,16 @@ def run_acts(acts):
         if k == "em":
             CUR.append(a)
             try:
-                if VIA[0] == "call" and DEPTH[0] == 0:
-                    # a top-level emission is the `call` event of a sandbox function; the emissions made by the handlers it reaches are AST events
+                if VIA[0] in ("call", "return") and DEPTH[0] == 0:
+                    # a top-level emission is the `call` (`return`) event of a sandbox function; the emissions made by the handlers it reaches are AST events
                     # (CPython itself does not trace code run by a trace function, so nested `call` events do not exist)
                     pyc.exec("def trigger():\n    return 0\ntrigger()", {}, {})
+                elif VIA[0] == "import" and DEPTH[0] == 0:
+                    # a top-level emission is the after_import event of a module loaded by the tracer's import hook
+                    import importlib
+                    sys.modules.pop(MOD, None)
+                    importlib.invalidate_caches()
+                    importlib.import_module(MOD)
                 else:
                     pyc.exec("x = 0", {}, {})
             finally:
@@ -45,7 +63,9 @@ def run_case(case, ci):
         for hi, hre in enumerate(td["handlers"]):
             def make(ti=ti, hi=hi):
                 def handler(self, ret, node, frame, evt, guard, **kw):
-                    if evt is pyc.call and frame.f_code.co_name != "trigger":
+                    if evt in (pyc.call, pyc.return_) and frame.f_code.co_name != "trigger":
+                        return None
+                    if evt is pyc.after_import and getattr(kw.get("module"), "__name__", None) != MOD:
                         return None
                     beh = CUR[-1]["tracers"][ti][hi]
                     LOG.append([DEPTH[0], beh["id"]])
@@ -58,10 +78,12 @@ def run_case(case, ci):
                         DEPTH[0] -= 1
                     return {0: None, 1: pyc.Skip, 2: pyc.SkipAll}[beh["ctl"]]
                 handler.__name__ = "h_%d_%d" % (ti, hi)
-                return pyc.register_handler((pyc.call, pyc.after_assign_rhs) if case.get("via") == "call" else pyc.after_assign_rhs, reentrant=hre)(handler)
+                return pyc.register_handler((SYS_EVT[case["via"]], pyc.after_assign_rhs) if case.get("via", "assign") != "assign" else pyc.after_assign_rhs, reentrant=hre)(handler)
             attrs["h_%d" % hi] = make()
         if td["propagate"]:
             attrs["should_propagate_handler_exception"] = lambda self, e, x: True
+        if case.get("via") == "import":
+            attrs["should_instrument_file"] = lambda self, fn: MOD in fn
         cls = type("R%d_%d" % (ci, ti), (pyc.BaseTracer,), attrs)
         tracers.append(cls.instance())
     raised, flags = [], []
@@ -91,6 +113,8 @@ def run_case(case, ci):
 def main():
     cases = json.load(sys.stdin)
     out = []
+    if any(c.get("via") == "import" for c in cases):
+        _module_dir()
     for i, c in enumerate(cases):
         try:
             out.append(run_case(c, i))
